@@ -41,6 +41,10 @@ pub fn rname(rng: &mut Rng, maxlen: usize) -> Vec<u8> {
     }
     .min(maxlen)
     .max(1);
+    if rng.chance(1, 4) {
+        // arbitrary bytes (no NUL): names are byte strings, not text
+        return (0..len).map(|_| rng.range(1, 255) as u8).collect();
+    }
     (0..len).map(|_| *rng.pick(AL)).collect()
 }
 
@@ -308,7 +312,7 @@ pub fn build(abi: &Abi, rng: &mut Rng, opname: &str, bits_on: &[String], want_er
             _ => Ret::Unit,
         }
     };
-    let namesj: Vec<Value> = names.iter().map(|n| json!(String::from_utf8_lossy(n).to_string())).collect();
+    let namesj: Vec<Value> = names.iter().map(|n| vharness::scripted::name_json(n)).collect();
     let req = json!({"h": hj, "f": f, "bits": bitsj, "num": num, "names": namesj, "pay": pay(&payload), "list": list});
     Built { bytes, req, script, cap_hint }
 }
@@ -378,7 +382,7 @@ pub fn decode_reply(abi: &Abi, msg: &[u8], kind: &str, plus: bool) -> Value {
                 ent.insert("off".into(), json!(off.to_string()));
                 ent.insert("type".into(), json!((typ as u64).to_string()));
                 ent.insert("namelen".into(), json!(namelen));
-                ent.insert("name".into(), json!(String::from_utf8_lossy(name).to_string()));
+                ent.insert("name".into(), vharness::scripted::name_json(name));
                 ent.insert("padzero".into(), json!(padzero));
                 ent.insert("start".into(), json!(pos - 16 - if plus { eo } else { 0 }));
                 dirents.push(Value::Object(ent));
